@@ -41,6 +41,13 @@ def generate(rng: random.Random, tier: str):
                       'profile': rng.choice(['rect', 'rect', 'smoothed', 'gauss', 'asym_neg', 'asym_pos']), 'fwhm': rng.choice([1.0, 2.0, 3.0, 4.0, 6.0, 8.0]),
                       'rotation': rng.choice(['identity', 'identity', 'axis', 'generic', 'tilt', 'tilt']), 'shift': rng.choice([0.0, 0.0, 1.0, -2.0, 0.5]),
                       'seed': rng.randrange(1 << 30)})
+    # quarter and half turns about every axis as a user builds them (Euler angles, single precision), thin continuous profiles,
+    # slice centre on a voxel plane
+    for ax in 'xyz':
+        for ang in (90.0, 180.0, 270.0):
+            n = rng.choice([9, 11])
+            cases.append({'kind': 'slice', 'shape': [n, n, n] if ang != 180.0 else [n, rng.choice([7, 8, 9]), rng.choice([6, 9])], 'profile': rng.choice(['smoothed', 'gauss', 'rect']),
+                          'fwhm': 1.0, 'rotation': 'axis', 'axis_spec': [ax, ang], 'shift': rng.choice([0.0, 1.0]), 'seed': rng.randrange(1 << 30)})
     for _ in range(300 if thorough else 60):
         dim = rng.choice([2, 3])
         cases.append({'kind': 'grid', 'dim': dim, 'mode': rng.choice(['bilinear', 'bilinear', 'nearest']), 'align': rng.random() < 0.5,
@@ -86,12 +93,13 @@ def run_slice(case, drv) -> Outcome:
     if case['rotation'] == 'identity':
         rot = None
     elif case['rotation'] == 'axis':
-        rot = Rotation.from_euler('xyz'[rng.randrange(3)], rng.choice([90.0, 180.0, 270.0]), degrees=True)
+        ax_, ang_ = case.get('axis_spec') or ('xyz'[rng.randrange(3)], rng.choice([90.0, 180.0, 270.0]))
+        rot = Rotation.from_euler(ax_, ang_, degrees=True)
     elif case['rotation'] == 'tilt':  # the slice normal is tilted about one in-plane axis
         rot = Rotation.from_euler('xy'[rng.randrange(2)], rng.choice([30.0, 45.0, -20.0, 12.5, -60.0, rng.uniform(-60, 60)]), degrees=True)
     else:
         rot = Rotation.from_euler('xyz', [rng.uniform(0, 90), rng.uniform(0, 90), rng.uniform(0, 90)], degrees=True)
-    cfg = f'volume {shape} profile {case["profile"]} fwhm {case["fwhm"]} rotation {case["rotation"]} shift {case["shift"]}'
+    cfg = f'volume {shape} profile {case["profile"]} fwhm {case["fwhm"]} rotation {case["rotation"]}{case.get("axis_spec", "")} shift {case["shift"]}'
     st, op = call(lambda: mrpro.operators.SliceProjectionOp(SpatialDimension(*shape), slice_rotation=rot, slice_shift=case['shift'], slice_profile=prof))
     if st != 'ok':
         return Outcome(key=('slice-ctor', cfg), corr=f'SliceProjectionOp raises {op} for {cfg}')
@@ -114,11 +122,13 @@ def run_slice(case, drv) -> Outcome:
                 'what': f'{cfg}: the operator integrates over offsets -{w_impl}..{w_impl} only, {100 * outside:.1f}% of the slice profile lies outside (max volume size {mx})'}
     # ---- weights: non-negative, constant volume -> constant slice (where the whole ray is inside)
     vals = torch.cat([op.matrix.values() if op.matrix is not None else op.matrix_adjoint.values()])
+    if not bool(torch.isfinite(vals).all()):
+        viol = viol or {'signature': f'slice:nonfinite-weight:{case["rotation"]}', 'what': f'{cfg}: {int((~torch.isfinite(vals)).sum())} interpolation weights are NaN / inf'}
     if float(vals.min()) < -1e-7:
         viol = viol or {'signature': 'slice:negative-weight', 'what': f'{cfg}: negative interpolation weight {float(vals.min())}'}
     ones = torch.ones(shape, dtype=torch.float32)
     (s,) = op(ones)
-    if float(s.max()) > 1 + 1e-4 or float(s.min()) < -1e-6:
+    if not bool(torch.isfinite(s).all()) or float(s.max()) > 1 + 1e-4 or float(s.min()) < -1e-6:
         viol = viol or {'signature': 'slice:row-sum', 'what': f'{cfg}: projection of a constant volume leaves [0,1]: min {float(s.min())} max {float(s.max())}'}
     if case['rotation'] == 'identity' and abs(case['shift']) + (w_impl or 0) + 1 < shape[0] / 2 - 0.5:
         inner = s[..., 0, :, :][..., (mx - shape[1]) // 2 + 1:(mx + shape[1]) // 2 - 1, (mx - shape[2]) // 2 + 1:(mx + shape[2]) // 2 - 1]
@@ -151,6 +161,42 @@ def run_slice(case, drv) -> Outcome:
             dev = min(devs)
             if dev > 0.05:
                 viol = viol or {'signature': 'slice:profile-shape', 'what': f'{cfg}: weights of the centre pixel along the normal deviate from the normalised profile by {dev:.3f}'}
+    # ---- axis-aligned half turns (the rotation as the user builds it, from Euler angles in single precision): the slice of V is the
+    # unrotated slice of V mirrored along the axes whose sign the rotation flips (plain slicing, about the volume centre); symmetric
+    # profiles only - a flipped normal mirrors the profile
+    if viol is None and case['rotation'] == 'axis' and case['profile'] in ('smoothed', 'gauss') and rot is not None:
+        sg = rot(torch.ones(3))
+        if bool(((sg.abs() - 1).abs() < 1e-5).all()) and bool(((rot(torch.tensor([1.0, 2.0, 3.0])).abs() - torch.tensor([1.0, 2.0, 3.0])).abs() < 1e-4).all()):
+            flips = [ax for ax in range(3) if float(sg[ax]) < 0]
+            # a slice lying exactly between two voxel planes with a profile edge exactly on voxel centres is ambiguous: keep the
+            # slice centre on a voxel plane (odd size with integer shift, or even size with half-integer shift)
+            on_plane = abs((shape[0] / 2 - 0.5 + case['shift']) % 1.0) < 1e-9
+            if on_plane:
+                gen = torch.Generator().manual_seed(case['seed'])
+                V = torch.randn(shape, generator=gen)
+                op_id = mrpro.operators.SliceProjectionOp(SpatialDimension(*shape), slice_rotation=None, slice_shift=case['shift'], slice_profile=make_profile(case['profile'], case['fwhm']))
+                (want_s,) = op_id(V.flip(flips) if flips else V)
+                (got_s,) = op(V)
+                # interior = slice pixels whose whole support (ray and in-plane neighbours) lies inside the volume: there the weights
+                # sum to one whatever the edge approximation does
+                # (slice pixel column j sits at volume coordinate j + (size - mx) // 2)
+                y0, x0 = -((shape[1] - mx) // 2), -((shape[2] - mx) // 2)
+                inner_ok = abs(case['shift']) + (w_impl or 0) + 1 < shape[0] / 2 - 0.5
+                sel = torch.zeros(got_s.shape[-2:], dtype=torch.bool)
+                if inner_ok:
+                    sel[y0 + 1:y0 + shape[1] - 1, x0 + 1:x0 + shape[2] - 1] = True
+                dev_s = (got_s - want_s).abs().nan_to_num(1e9)[..., sel]
+                if got_s.shape == want_s.shape and dev_s.numel() and float(dev_s.max()) > 1e-3 * float(V.abs().max()):
+                    bad = dev_s > 1e-3 * float(V.abs().max())
+                    viol = {'signature': 'slice:axis-aligned', 'what': f'{cfg}: a half turn flipping axes {flips} does not give the slice of the mirrored volume: '
+                                                                     f'{int(bad.sum())} of {bad.numel()} interior slice pixels differ (max dev {float(dev_s.max()):.3g})'}
+                # the slice pixels on the outermost voxels of the volume still have their whole in-plane support inside it
+                (o_id,) = op_id(torch.ones(shape))
+                (o_rt,) = op(torch.ones(shape))
+                edge_dev = (o_id - o_rt).abs().nan_to_num(1e9)
+                if viol is None and inner_ok and float(edge_dev.max()) > 1e-3:
+                    viol = {'signature': 'slice:edge-fraction:axis', 'what': f'{cfg}: a constant volume gives {float(o_rt.min()):.3f} .. {float(o_rt.max()):.3f} on slice pixels where the '
+                                                                           f'unrotated slice of the mirrored volume gives {float(o_id[edge_dev > 1e-3].mean()):.3f} (pixels on the outermost voxels)'}
     # ---- the whole weight matrix (read off the forward operator with unit-impulse volumes) for slices whose in-plane axes stay
     # aligned with the volume (identity, tilts about one in-plane axis): the weight of voxel v for slice pixel p is
     # profile(d_normal) (1-|d_y|)+ (1-|d_x|)+ with d = R^T (p - v), p the rotated and shifted pixel position about the volume
@@ -169,16 +215,24 @@ def run_slice(case, drv) -> Outcome:
         dd = (rmat.T @ (pp[:, :, None, None, None, :] - vv)[..., None])[..., 0]
         want = prof.inner(dd[..., 0].float()).double() * (1 - dd[..., 1].abs()).clamp_min(0) * (1 - dd[..., 2].abs()).clamp_min(0)
         want = want * (dd[..., 0].abs() <= (w_impl or 0) + 1)
+        # a rectangular profile is discontinuous at +-fwhm/2: a voxel within rounding of the edge may fall on either side
+        edge_amb = ((dd[..., 0].abs() - case['fwhm'] / 2).abs() < 1e-3).flatten(2).any(-1) if case['profile'] == 'rect' else torch.zeros(mx, mx, dtype=torch.bool)
         tot = want.sum((-1, -2, -3))
         # pixels whose whole support lies inside the volume: the analytic weights of a pixel near the edge miss the part outside
         mass_all = prof.inner(torch.arange(-(w_impl or 0) - 1, (w_impl or 0) + 2).float()).double().sum()
         inside = (got.sum((-1, -2, -3)) - 1).abs() < 1e-4
-        full = inside & (tot > 0)
+        full = inside & (tot > 0) & ~edge_amb
         if bool(full.any()):
             dev = ((got - want / tot.clamp_min(1e-30)[..., None, None, None]).abs().amax((-1, -2, -3)))[full]
-            # a pixel is only comparable if none of its analytic support is cut off by the volume: compare those where the
-            # operator's weights sum to one and the analytic support is complete (same total as the pixel with the largest total)
-            complete = tot[full] >= tot[full].max() * (1 - 1e-6)
+            # a pixel is only comparable if none of its support is cut off by the volume: both ends of its ray (half width w + 1
+            # along the normal) and their in-plane neighbours lie inside
+            normal = rmat @ torch.tensor([1.0, 0.0, 0.0], dtype=torch.float64)
+            hi = torch.tensor([z - 1.0, y - 1.0, x - 1.0], dtype=torch.float64)
+            ok_all = torch.ones(mx, mx, dtype=torch.bool)
+            for sgn in (-1.0, 1.0):
+                end = pp + sgn * ((w_impl or 0) + 1) * normal
+                ok_all &= ((end >= 1.0) & (end <= hi - 1.0)).all(-1)
+            complete = ok_all[full]
             if bool(complete.any()) and float(dev[complete].max()) > 2e-3:
                 viol = {'signature': f'slice:weights:{case["rotation"]}',
                         'what': f'{cfg}: the weights of a slice pixel differ from profile(d_normal) x in-plane linear interpolation about the rotated pixel position by '
